@@ -31,7 +31,7 @@ HARNESSES = {
     "c06_worker": {"src": [H + "c06_worker.c", M + "upipe_transfer.c", M + "upipe_worker.c"] + PIPEX + VS},
     "c06_xfer": {"src": [H + "c06_xfer.c", M + "upipe_transfer.c"] + PIPEX + VS},
     "c06_queue": {"src": [H + "c06_queue.c"] + PIPEX + VS},
-    "c12_request": {"src": [H + "c12_request.c", T + "upipe_ts_align.c", T + "upipe_ts_sync.c", T + "upipe_ts_check.c"] + PIPEX},
+    "c12_request": {"src": [H + "c12_request.c", T + "upipe_ts_align.c", T + "upipe_ts_sync.c", T + "upipe_ts_check.c", "@REPO@/lib/upipe-framers/upipe_auto_framer.c"] + PIPEX},
     "c14_rechunk": {"src": [H + "c14_rechunk.c", T + "upipe_ts_sync.c", T + "upipe_ts_check.c", T + "upipe_ts_align.c"] + PIPEX},
     "pipex_cat": {"src": [H + "pipex_cat.c", T + "upipe_ts_sync.c", T + "upipe_ts_check.c", T + "upipe_ts_align.c", T + "upipe_ts_psi_split.c", T + "upipe_ts_split.c"] + PIPEX},
     "c07_lin": {"src": [H + "c07_lin.c"] + VS},
@@ -344,7 +344,7 @@ CHECKS["C14"] = {
 
 
 CAT_ROWS = ["skip>htons", "setattr>delay>idem", "idem", "skip", "htons", "delay", "setattr", "setflowdef", "probe_uref", "match_attr", "null", "dup", "time_limit", "genaux",
-            "buffer", "rate_limit", "qsink", "agg", "chunk", "ts_sync", "ts_check", "ts_align", "ts_psi_split", "ts_split",
+            "buffer", "rate_limit", "qsink", "qsink_noloop", "agg", "chunk", "ts_sync", "ts_check", "ts_align", "ts_psi_split", "ts_split",
             "burst", "convert_to_block", "discard_blocking", "dump", "noclock", "nodemux", "setrap"]
 CAT_HEAVY = {"buffer": 1, "setattr>delay>idem": 1, "ts_split": 1, "ts_psi_split": 1}
 
@@ -368,14 +368,14 @@ def _cat_jobs(oracle, tier, rows=CAT_ROWS, pools=(0, 2)):
             jobs.append(("pipex_cat", ["--row", r, "--oracle", oracle, "--pool", pool, "--prov", prov, "--depth", depth, "--deadline", 75 if q else 840]))
     return jobs
 
-_CAT_BOUNDS = {"quick": "31 catalogue rows (29 pipes + 2 chains): every sequence of up to 5 operations (4 for buffer and the 3-pipe chain) with pool depth 0 and managers provided by the probes, and up to 4 (3) operations with pool depth 2 and managers provided by the sinks (shared managers), over the row's alphabet "
+_CAT_BOUNDS = {"quick": "32 catalogue rows (29 pipes, the queue pair also without an event loop for the source, 2 chains): every sequence of up to 5 operations (4 for buffer and the 3-pipe chain) with pool depth 0 and managers provided by the probes, and up to 4 (3) operations with pool depth 2 and managers provided by the sinks (shared managers), over the row's alphabet "
                         "(set_flow_def F1/F2/foreign, 5 input shapes incl. empty, 3+2-segment and shared-segment buffers, set_output S0/S1(rejecting)/NULL, sink answer toggle, flush, "
                         "every option setter x 3-4 values, subpipe alloc/set_output/release, pump dispatch, an upstream request whose answer makes the upstream push a buffer, "
                         "a probe that tears the subpipes down on source_end, release), followed by release of everything and a run of the event loop to quiescence",
                "thorough": "same alphabet, one operation deeper, all four (pool, provider) combinations"}
 _CAT_NOTE = ("Pipe-private state is not readable from outside, so histories are not merged: the full tree is enumerated up to the depth. "
              "Catalogue: idem skip htons delay setattr setflowdef probe_uref match_attr null dup(+2 output subpipes) time_limit genaux buffer rate_limit "
-             "queue_sink+queue_source(one thread, mock loop) aggregate chunk_stream ts_sync ts_check ts_align ts_psi_split(+2 filtered outputs) ts_split(+2 PID outputs) burst convert_to_block discard_blocking dump noclock nodemux setrap (the last seven with the generic oracles only), and the chains skip>htons and setattr>delay>idem; other pipe types are outside the bound.")
+             "queue_sink+queue_source(one thread, mock loop; also with a source that never gets a loop and is destroyed with a non-empty queue) aggregate chunk_stream ts_sync ts_check ts_align ts_psi_split(+2 filtered outputs) ts_split(+2 PID outputs) burst convert_to_block discard_blocking dump noclock nodemux setrap (the last seven with the generic oracles only), and the chains skip>htons and setattr>delay>idem; other pipe types are outside the bound.")
 
 CHECKS["C01"] = {
     "engine": "pipex", "design_ref": "DESIGN.md section 3 C01",
@@ -404,8 +404,8 @@ CHECKS["C05"] = {
     "technique": "explicit-state enumeration of all input/control sequences up to a depth on every pass-through / split / buffering catalogue pipe (real code); sequence numbers in payload and attribute checked at recording sinks against the documented transformation and a model of the output contract",
     "level_text": "Same enumeration as C01 (buffers of 0, 2, 3 and 5 octets, one or two segments, dated). Every buffer seen by a sink must be one that was input, at most once per sink, in input order, with exactly the documented change (identity; skip offset removed; octet pairs swapped; delay added to the three dates; attributes added; match_attr predicate) on payload, attributes, dates and flags; one-to-one and duplicating pipes deliver during the input call or never, to exactly the sinks a model of the output contract names (definition stored, output connected, definition accepted) - so a lost, extra or misrouted buffer is caught; holding pipes (time_limit, genaux, buffer, rate_limit, queue sink + source) keep arrival order and, when the output stays connected and accepting, deliver everything once the loop is quiescent; whatever is still held at the end is freed (accounting as in C01). Bounded, not a proof.",
     "level_note": _CAT_NOTE + " Chains: skip>htons and setattr>delay>idem only.",
-    "jobs": {"quick": _cat_jobs("C05", "quick", [r for r in CAT_ROWS if r not in ("agg", "chunk", "ts_sync", "ts_check", "ts_align", "ts_psi_split", "ts_split", "burst", "convert_to_block", "discard_blocking", "dump", "noclock", "nodemux", "setrap")]),
-             "thorough": _cat_jobs("C05", "thorough", [r for r in CAT_ROWS if r not in ("agg", "chunk", "ts_sync", "ts_check", "ts_align", "ts_psi_split", "ts_split", "burst", "convert_to_block", "discard_blocking", "dump", "noclock", "nodemux", "setrap")])},
+    "jobs": {"quick": _cat_jobs("C05", "quick", [r for r in CAT_ROWS if r not in ("qsink_noloop", "agg", "chunk", "ts_sync", "ts_check", "ts_align", "ts_psi_split", "ts_split", "burst", "convert_to_block", "discard_blocking", "dump", "noclock", "nodemux", "setrap")]),
+             "thorough": _cat_jobs("C05", "thorough", [r for r in CAT_ROWS if r not in ("qsink_noloop", "agg", "chunk", "ts_sync", "ts_check", "ts_align", "ts_psi_split", "ts_split", "burst", "convert_to_block", "discard_blocking", "dump", "noclock", "nodemux", "setrap")])},
     "rule": "state = one operation history (no merging); non-trivial = histories in which at least one buffer reached a sink",
     "bounds": _CAT_BOUNDS,
     "assumptions": DEFAULT_ASSUME + ["skip offsets never exceed the buffer size (undefined by the documentation)"],
@@ -428,7 +428,7 @@ CHECKS["C20"] = {
 def _c12_jobs(tier):
     q = tier == "quick"
     jobs = []
-    for topo in (0, 1, 2, 3, 4):
+    for topo in (0, 1, 2, 3, 4, 5):
         for pool in (0, 2):
             jobs.append(("c12_request", ["--topo", topo, "--pool", pool, "--nreq", 2, "--depth", 6 if q else 8, "--deadline", 75 if q else 840]))
         jobs.append(("c12_request", ["--topo", topo, "--pool", 0, "--nreq", 3, "--depth", 5 if q else 6, "--deadline", 75 if q else 840]))
@@ -444,7 +444,7 @@ CHECKS["C12"] = {
     "level_note": "Chain length 2 (+ queue); longer chains repeat the same helper. Requests that no provider holds are answered by the real uprobe_uref_mgr / uprobe_uclock probes. Flow-format and ubuf-manager requests are not in the alphabet.",
     "jobs": {"quick": _c12_jobs("quick"), "thorough": _c12_jobs("thorough")},
     "rule": "state = one operation history (no merging); non-trivial = histories in which a provider held a registration or the head callback fired",
-    "bounds": {"quick": "5 topologies x pool depth {0,2}: all sequences of up to 6 operations with 2 request types; 3 request types up to depth 5, also with providers answering inside register, providers declining every request (the probes must then answer) and with a requester callback that withdraws and re-issues another request (mutating the request lists during re-plumbing)",
+    "bounds": {"quick": "6 topologies x pool depth {0,2}: all sequences of up to 6 operations with 2 request types; 3 request types up to depth 5, also with providers answering inside register, providers declining every request (the probes must then answer) and with a requester callback that withdraws and re-issues another request (mutating the request lists during re-plumbing)",
                "thorough": "depth 8 (2 request types) and 6 (3 request types)"},
     "assumptions": DEFAULT_ASSUME + ["a requester unregisters its requests before releasing the pipe it registered them on (ownership rule)"],
     "job_timeout": {"quick": 300, "thorough": 1500},
@@ -463,6 +463,10 @@ def _c06_jobs(tier):
             j(script, qlen, 1, 0, k)
     for script in ("fir", "fr", "fiir"):
         j(script, 1, 0, 0, k + 1)          # producer without an event loop: a full queue may drop, never reorder / duplicate / hang
+    for script in ("fiiwr", "fiiiwr"):      # quiescence: both loops idle => everything sent has arrived (lost wake-ups)
+        for qlen in (2, 4):
+            j(script, qlen, 1, 0, k)
+    j("fiwiwr", 2, 1, 0, k)
     j("fiiir", 1, 1, 1, k)                  # max_length 1 on the sink
     j("fiiar", 1, 1, 0, k)                  # event loop re-attached while the sink is stalled
     j("fiaiilr", 2, 1, 0, k - 1)
